@@ -1,9 +1,10 @@
 use crate::driver::Check;
 
+pub mod c04;
 pub mod c12;
 
 pub fn registry() -> Vec<&'static dyn Check> {
-    vec![&c12::C12]
+    vec![&c04::C04, &c12::C12]
 }
 
 pub fn find(id: &str) -> Option<&'static dyn Check> {
